@@ -4,6 +4,7 @@ import (
 	"bufio"
 	"bytes"
 	"fmt"
+	"io"
 	"os"
 	"path/filepath"
 	"sync"
@@ -27,7 +28,7 @@ func init() {
 			"resolution 0 (alias of 960), resolutions above 32767 (clamped) and more than 65535 tracks are outside the stated domain",
 			"messages are non-empty smf.Message values: channel messages, FF type VLQ payload metas in canonical form, F0/F7 sysex and escape messages",
 		},
-		Require: []string{"histories", "smpte_files", "rs_elisions_by_writer", "delta_ge_2^28", "early_close", "add_after_close", "variadic_add", "unclosed_tracks", "events_compared", "norunningstatus_files", "file_roundtrips", "read_modify_write_values", "concurrent_roundtrips", "vlq_width_combinations"},
+		Require: []string{"bank_reads", "histories", "smpte_files", "rs_elisions_by_writer", "delta_ge_2^28", "early_close", "add_after_close", "variadic_add", "unclosed_tracks", "events_compared", "norunningstatus_files", "file_roundtrips", "read_modify_write_values", "concurrent_roundtrips", "vlq_width_combinations"},
 		Run:     runC01,
 	})
 }
@@ -487,6 +488,77 @@ func runC01(c *mon.Ctx) {
 		}
 		c.Count("read_modify_write_values", 1)
 		c01Check(c, b, fmt.Sprintf("read-modify-write %d", i))
+	})
+
+	// a bank: several values written one after the other into one stream and read back with consecutive
+	// ReadFrom calls on the same source (regular file, pipe, bytes.Reader, bufio.Reader). Reading one value
+	// must not consume bytes of the next one.
+	c.Each("bank", c.N(400, 40_000), func(i int64, r *mon.Rand) {
+		n := r.Range(2, 5)
+		vals := make([]*apiValue, n)
+		var all bytes.Buffer
+		in := map[string]any{"values_in_the_stream": n}
+		var sizes []int
+		for k := range vals {
+			vals[k] = buildHistory(r, 0x0FFFFFFF, false)
+			var err error
+			var m int64
+			if c.Guard("panic:WriteTo", in, func() { m, err = vals[k].s.WriteTo(&all) }) || err != nil {
+				return
+			}
+			sizes = append(sizes, int(m))
+		}
+		in["sizes"] = sizes
+		b := all.Bytes()
+		kind := int(i % 4)
+		in["source"] = []string{"regular file (*os.File)", "os.Pipe", "*bytes.Reader", "*bufio.Reader (size 16) created by the caller"}[kind]
+		var src io.Reader
+		switch kind {
+		case 0:
+			if c.Dir == "" {
+				return
+			}
+			path := filepath.Join(c.Dir, fmt.Sprintf("c01-bank-%d.mid", c.Shard))
+			if err := os.WriteFile(path, b, 0o644); err != nil {
+				return
+			}
+			f, err := os.Open(path)
+			if err != nil {
+				return
+			}
+			defer os.Remove(path)
+			defer f.Close()
+			src = f
+		case 1:
+			pr, pw, err := os.Pipe()
+			if err != nil {
+				return
+			}
+			go func() { pw.Write(b); pw.Close() }()
+			defer pr.Close()
+			src = pr
+		case 2:
+			src = bytes.NewReader(b)
+		default:
+			src = bufio.NewReaderSize(bytes.NewReader(b), 16)
+		}
+		for k := range vals {
+			var s2 *smf.SMF
+			var err error
+			if c.Guard("panic:ReadFrom", in, func() { s2, err = smf.ReadFrom(src) }) {
+				return
+			}
+			c.Count("bank_reads", 1)
+			if err != nil {
+				c.Violation("bank-read-error", fmt.Sprintf("value %d of %d written one after the other into one stream (%s): ReadFrom fails: %v", k, n, in["source"], err), in, nil, err.Error())
+				return
+			}
+			if diff := ref.EqualFiles(vals[k].sh, fromLib(s2)); diff != "" {
+				c.Violation("bank-roundtrip", fmt.Sprintf("value %d of %d in one stream (%s) reads back differently: %s", k, n, in["source"], diff), in, nil, nil)
+				return
+			}
+		}
+		c.DistinctBytes(b, []byte{byte(kind)})
 	})
 
 	// the API works on independent values: round trips from 8 goroutines at once must not interfere
